@@ -4,6 +4,7 @@ CONSTANTS
   Plains <- PlainsT
   MaxSum = 4
   MaxN = 4
+  BigTN <- BigQ
   Depth = 2
   Emit = TRUE
 INVARIANTS TypeOK Homomorphic ProofExact VerifyDecryptExact SharesExact SealRefusesIdentityKey EmitVec
